@@ -58,7 +58,7 @@ ASSUMPTIONS = [
 PROBES = [
     "crash_in_setup", "crash_in_getitem", "crash_in_save", "crash_between_save_and_manifest",
     "crash_after_manifest", "soft_interrupt", "torn_write", "multi_cycle", "resume_skipped_prefix", "stale_dir",
-    "workers_sim", "prefix_ids", "dither_seeded", "small_manifest_buffer", "all_done_before_crash",
+    "workers_sim", "workers_real_dataloader", "prefix_ids", "dither_seeded", "small_manifest_buffer", "all_done_before_crash",
 ]
 FAULT_KINDS = ["HARD_KILL", "SOFT_INTERRUPT", "TORN_WRITE", "STALE_DIR", "MULTI"]
 EXHAUSTIVE = {}
@@ -218,6 +218,11 @@ def generate(rng, tier, k):
             run["num_workers"] = rng.choice((0, 1, 2, 3))
         runs.append(run)
     runs.append({"fault": None, "ambient": rng.randrange(1 << 20)})
+    if rng.random() < (0.04 if tier == "quick" else 0.08):
+        # cross-check of the simulated pool: the genuine multi-process DataLoader, no crash faults
+        knobs["pool"] = "real"
+        args["num_workers"] = rng.choice((1, 2, 3))
+        runs = [{"fault": None, "ambient": rng.randrange(1 << 20)}]
     return {"corpus": corpus, "cfg": cfg, "pre": pre, "post": post, "args": args, "knobs": knobs, "stale": stale,
             "runs": runs}
 
@@ -368,6 +373,8 @@ def _run(scn, d, res, tr):
         knobs["ambient_seed"] = run.get("ambient", 1000 + ri)
         if W > 0 and knobs.get("pool") == "sim":
             res.probe("workers_sim")
+        elif W > 0:
+            res.probe("workers_real_dataloader")
         r = child.run_tool("torch", argv, d, fault, knobs)
         lines_total += (r["killed"][1] if r["killed"] else (r["points"] or 0))
         ev = [(n, u) for n, u, c in r["events"] if n in ("read", "save_begin", "save_end", "getitem", "exception")]
@@ -489,7 +496,8 @@ def _run(scn, d, res, tr):
                         listed, tail, ids), **facts)
     res.probes["_line_events"] = lines_total
     res.signature = "|".join(sig) + "/n%d" % len(ids)
-    res.nontrivial = bool(any(k in res.faults for k in ("HARD_KILL", "SOFT_INTERRUPT")) or res.probes.get("workers_sim"))
+    res.nontrivial = bool(any(k in res.faults for k in ("HARD_KILL", "SOFT_INTERRUPT")) or res.probes.get("workers_sim")
+                          or res.probes.get("workers_real_dataloader"))
 
 
 def _tensor_equal(a, b):
